@@ -147,3 +147,17 @@ CHECKS["C14"] = dict(
             dict(pkg="./cmd/plugins/memtierd", run="TestVerifC14", shards=1),
             dict(pkg="./cmd/plugins/sgx-epc", run="TestVerifC14", shards=1)],
 )
+
+CHECKS["C18"] = dict(
+    level="exploration", engine="inputx",
+    technique="exhaustive enumeration of annotation maps (every subset of forms, several container-name pairs) and of every iteration permutation of the annotation map and the derived map, against a reference resolver",
+    rule="cache GetEffectiveAnnotation and sgx-epc parseEpcLimit: every subset of {container-specific for C, for each of 4-5 other containers (names that are prefixes/suffixes of each other), pod-wide, bare} x 5-6 target names x keys (with decoy keys); "
+         "memory-qos and memtierd: every combination of class / memory.high / memory.swap.max at pod level, container level or both, plus annotations addressed to another container, "
+         "each evaluated under ALL permutations of the annotation map and of the derived map (<= 5! each, through the vgen map-range rewrite); non-trivial = maps with at least one relevant annotation (two for the side plugins)",
+    bound=dict(quick="~3000 maps for cache/sgx-epc; ~900 maps x up to 120x24 orders for the side plugins", thorough="same (the family is enumerated completely in both tiers)"),
+    assumptions=["memory-qos/memtierd have two annotation forms (container-specific and pod-level); the three-level rule applies to the cache and sgx-epc resolvers"],
+    stages=[dict(pkg="./pkg/resmgr/cache", run="TestVerifC18", shards=1),
+            dict(pkg="./cmd/plugins/sgx-epc", run="TestVerifC18", shards=1),
+            dict(pkg="./cmd/plugins/memory-qos", run="TestVerifC18", shards=1),
+            dict(pkg="./cmd/plugins/memtierd", run="TestVerifC18", shards=1)],
+)
